@@ -200,8 +200,8 @@ CHECKS = {
             'engine_util_misc.c: mju_gather / mju_gatherInt / mju_gatherMasked write res[i] = vec[ind[i]] (0 at negative indices for the '
             'masked form), mju_scatter / mju_scatterInt write res[ind[i]] = vec[i] and leave every non-indexed position untouched '
             '(injective index list given with a ghost inverse), the NULL-index forms are copies, and - client lemma over the contracts only - '
-            'gather inverts scatter.',
-            'Trusted: VC generator, clang, z3/cvc5, mju_copy contract (proved under C26). Not decided (listed): factorisations, solves, '
+            'gather inverts scatter; mju_copySparse / mju_zeroSparse copy / clear exactly the stored entries of the listed rows of a CSR matrix.',
+            'Trusted: VC generator, clang, z3/cvc5, mju_copy contract (proved under C26), mju_zero contract (proved under C18). Not decided (listed): factorisations, solves, '
             'rank-one updates, eigen-decomposition, box QP, dense/sparse conversion round trip, AVX paths.',
             'contracts with ghost parameters + inductive loop invariants, z3 LIA+arrays+quantifiers'),
     'C27': ('DESIGN.md section 4 / C27',
